@@ -184,7 +184,21 @@ func (r *c19Result) class(c string) { r.classes[c] = true }
 func c19Enforced(x *c19Ctx, c c19Conf, conf *RegConfig, res *c19Result) (string, string) {
 	pol := c19BuildPolicy(c)
 	if k, e, bad := pol.anyUnreadable(); bad {
-		return "dropped:" + k, fmt.Sprintf("the configuration was accepted although %s entry %q cannot be parsed: the load must fail instead of dropping the entry", k, e)
+		more := ""
+		if _, a, b := c.cutPairs(); k == "covert_blocklist_domains" && a == e {
+			more = fmt.Sprintf(" (the entry is a pattern only when read together with the later entry %q; every entry is a pattern of its own)", b)
+		}
+		return "dropped:" + k, fmt.Sprintf("the configuration was accepted although %s entry %q cannot be parsed: the load must fail instead of dropping the entry%s", k, e, more)
+	}
+	// how the entry and the probe address are written (an IPv4 range / address in IPv4-mapped IPv6
+	// notation is the same range / address)
+	notation := func(base string, n *net.IPNet, ip net.IP) {
+		res.class(base)
+		if c19MappedNet(n) {
+			res.class(base + ":v4-entry-in-v6-notation")
+		} else if c19MappedForm(ip) {
+			res.class(base + ":v4-address-in-v6-notation")
+		}
 	}
 	if pol.anyRepaired() {
 		res.class("accepted-with-stray-whitespace-entry")
@@ -206,7 +220,7 @@ func c19Enforced(x *c19Ctx, c c19Conf, conf *RegConfig, res *c19Result) (string,
 				if p != nil {
 					return "panic:policy", fmt.Sprintf("ParseOrResolveBlocklisted(%s) panicked: %s", c19HostPort(ip), p.Val)
 				}
-				res.class("enforced-blocklist-probe")
+				notation("enforced-blocklist-probe", n, ip)
 				if !ref {
 					return "dropped:covert_blocklist_subnets", fmt.Sprintf("covert_blocklist_subnets entry %q of an accepted configuration is not enforced: covert %s (inside it) is not refused", e.Text, c19HostPort(ip))
 				}
@@ -218,21 +232,24 @@ func c19Enforced(x *c19Ctx, c c19Conf, conf *RegConfig, res *c19Result) (string,
 		for _, e := range l.Entries {
 			n, _, _ := c19ReadCIDR(e.Text)
 			for _, ip := range c19Probes(n) {
-				if pol.domainMaybeRefused(ip.String()) {
+				if pol.domainMaybeRefused(c19Host(ip)) {
 					continue
 				}
 				ref, p := refusedCovert(ip)
 				if p != nil {
 					return "panic:policy", fmt.Sprintf("ParseOrResolveBlocklisted(%s) panicked: %s", c19HostPort(ip), p.Val)
 				}
-				res.class("enforced-allowlist-probe")
+				notation("enforced-allowlist-probe", n, ip)
 				if ref {
 					return "dropped:covert_allowlist_subnets", fmt.Sprintf("covert_allowlist_subnets entry %q of an accepted configuration is not enforced: covert %s (inside it) is refused", e.Text, c19HostPort(ip))
 				}
 			}
 		}
 		// an allowlist is in force: everything outside it is refused
-		outside := []net.IP{net.ParseIP("203.0.113.200"), net.ParseIP("2001:db8:ffff:ffff::1"), net.ParseIP("198.18.77.1"), net.ParseIP("8.8.8.8")}
+		var outside []net.IP
+		for _, s := range []string{"203.0.113.200", "2001:db8:ffff:ffff::1", "198.18.77.1", "8.8.8.8"} {
+			outside = append(outside, c19Forms(net.ParseIP(s))...)
+		}
 		for _, ip := range outside {
 			if c19In(pol.Allow, ip) {
 				continue
@@ -256,7 +273,7 @@ func c19Enforced(x *c19Ctx, c c19Conf, conf *RegConfig, res *c19Result) (string,
 				if p := c19Recover(func() { ref = conf.IsBlocklistedPhantom(ip) }); p != nil {
 					return "panic:policy", fmt.Sprintf("IsBlocklistedPhantom(%s) panicked: %s", ip, p.Val)
 				}
-				res.class("enforced-phantom-probe")
+				notation("enforced-phantom-probe", n, ip)
 				if !ref {
 					return "dropped:phantom_blocklist", fmt.Sprintf("phantom_blocklist entry %q of an accepted configuration is not enforced: phantom %s (inside it) is not refused", e.Text, ip)
 				}
@@ -718,6 +735,11 @@ func c19RunConfig(x *c19Ctx, c c19ConfigCase, res *c19Result) {
 		res.harness = err.Error()
 		return
 	}
+	if cl, _, _ := conf.cutPairs(); len(cl) > 0 {
+		for _, k := range cl {
+			res.class(k)
+		}
+	}
 	parsed, perr, pp := c19Load()
 	if pp != nil {
 		res.class("parseconfig-panicked")
@@ -852,9 +874,13 @@ func c19CheckConfig(t vh.Fataler, rec *vh.Rec, x *c19Ctx, c c19ConfigCase) {
 // TestVerif_C19_shipped: the shipped configuration itself, and every configuration that differs
 // from it in exactly one optional key (all alternatives of that key), exhaustively.
 func TestVerif_C19_shipped(t *testing.T) {
-	rec := vh.NewRec("C19", "shipped", "the shipped cmd/application/app_config.toml byte for byte, then every configuration differing from it in exactly one optional key: each scalar key x each of its alternatives {unset, zero, set values, unusable value, wrong TOML type}, each list key x {unset, empty, every pool entry alone (valid / stray whitespace / unparseable), shipped entries + one more}; loaded through ParseConfig from a temp file; non-trivial = differs from the shipped file in >= 1 key; distinct by configuration")
+	rec := vh.NewRec("C19", "shipped", "the shipped cmd/application/app_config.toml byte for byte, then every configuration differing from it in exactly one optional key: each scalar key x each of its alternatives {unset, zero, set values, unusable value, wrong TOML type}, each list key x {unset, empty, every pool entry alone (valid / stray whitespace / unparseable; subnets in every notation net.ParseCIDR reads, IPv4 ranges also as IPv4-mapped IPv6), shipped entries + one more}, the domain list x every ordered pair over the unreadable pool and a pool of pattern halves; every subnet entry probed with addresses in both forms (dotted / ::ffff:a.b.c.d, 4-byte / 16-byte); loaded through ParseConfig from a temp file; non-trivial = differs from the shipped file in >= 1 key; distinct by configuration")
 	defer rec.Flush()
-	rec.Require("shipped-file", "rejected:parse")
+	rec.Require("shipped-file", "rejected:parse",
+		"enforced-blocklist-probe:v4-entry-in-v6-notation", "enforced-allowlist-probe:v4-entry-in-v6-notation", "enforced-phantom-probe:v4-entry-in-v6-notation",
+		"enforced-blocklist-probe:v4-address-in-v6-notation", "enforced-allowlist-probe:v4-address-in-v6-notation", "enforced-phantom-probe:v4-address-in-v6-notation",
+		"unreadable-domain-entry-completed-by-later-entry:missing-paren", "unreadable-domain-entry-completed-by-later-entry:missing-bracket",
+		"unreadable-domain-entry-completed-by-later-entry:trailing-backslash", "two-unreadable-domain-entries-forming-one-pattern")
 	x := c19NewCtx(t)
 	if p := vh.ReplayFile(); p != "" {
 		var c c19ConfigCase
@@ -962,6 +988,30 @@ func TestVerif_C19_shipped(t *testing.T) {
 			setList(c19List{Key: k, Mode: "set", Entries: append(append([]c19Entry(nil), shippedEntries...), e)}, fmt.Sprintf("shipped entries + %q", e.Text))
 		}
 	}
+	// domain lists of two entries: every ordered pair over the unreadable pool and a pool of pattern
+	// halves (what is left and right of a cut through a group, a class, an escape, a repetition).
+	// Each entry is judged alone: the pair must be refused unless both are patterns by themselves.
+	{
+		halves := append(append([]string(nil), c19DomBad...), c19DomHalves...)
+		for _, a := range halves {
+			for _, b := range halves {
+				c := clone()
+				l := c19List{Key: "covert_blocklist_domains", Mode: "set", Entries: []c19Entry{{Text: a}, {Text: b}}}
+				found := false
+				for i := range c.Lists {
+					if c.Lists[i].Key == l.Key {
+						c.Lists[i] = l
+						found = true
+					}
+				}
+				if !found {
+					c.Lists = append(c.Lists, l)
+				}
+				c.Note = fmt.Sprintf("shipped with covert_blocklist_domains: the pair %q, %q", a, b)
+				run(c19ConfigCase{Conf: c, Regs: regs})
+			}
+		}
+	}
 	// no key of the registration section at all / nothing at all
 	run(c19ConfigCase{Conf: c19Conf{Note: "empty file"}})
 	run(c19ConfigCase{Conf: c19Conf{Scalars: []c19KV{{Key: "log_level", Mode: "set", Raw: `"error"`}}, Note: "only log_level"}})
@@ -977,11 +1027,17 @@ func c19GenConfigCase(rt *rapid.T) c19ConfigCase {
 
 // TestVerif_C19_config: rapid-generated configurations over all optional keys at once.
 func TestVerif_C19_config(t *testing.T) {
-	rec := vh.NewRec("C19", "config", "rapid-generated station configurations: every optional key (4 liveness keys, GeoIP paths, worker count, share settings, v4/v6, public-address blocklisting, log level) independently {unset, zero, set, unusable value}, at most one key of the wrong TOML type, optional syntax garbage, optional ZMQ section; blocklist / allowlist / domain / phantom lists {unset, empty, 1-4 entries: pool or random CIDRs, stray whitespace, bare addresses, unparseable, bad regexps, patterns drawn from the regexp syntax at large: [flag][anchor] 1-4 fragments [anchor] over literals in both cases, \\d \\D \\s \\S \\w \\W \\b \\B \\A \\z, POSIX and Unicode classes, (?i) (?s) (?U) and scoped flags, alternations, named groups, \\Q..\\E, hex escapes}; domain oracle = Go regexp on the entry as written over host spellings in written / upper / lower / swapped / title case, embedded and unrelated names: matching hosts refused by ParseOrResolveBlocklisted with no DNS question, hosts matching in neither case reading not refused by the domain policy; plus 0-4 registrations ingested before housekeeping. Loaded through ParseConfig from a temp file, brought up as main.go does. Non-trivial = differs from the shipped file in >= 1 key; distinct by (configuration, registrations)")
+	rec := vh.NewRec("C19", "config", "rapid-generated station configurations: every optional key (4 liveness keys, GeoIP paths, worker count, share settings, v4/v6, public-address blocklisting, log level) independently {unset, zero, set, unusable value}, at most one key of the wrong TOML type, optional syntax garbage, optional ZMQ section; blocklist / allowlist / domain / phantom lists {unset, empty, 1-4 entries: pool or random CIDRs, stray whitespace, bare addresses, unparseable, bad regexps; subnets in every notation net.ParseCIDR reads (IPv4 ranges dotted or IPv4-mapped IPv6 with dotted / hexadecimal tail, compressed / expanded, either case; IPv6 ranges compressed, capitals, leading zeros, dotted tail), each probed with its first and last address in both forms (dotted / ::ffff:a.b.c.d covert literal, 4-byte / 16-byte phantom); domain lists made of a well-formed pattern cut at a drawn position into two entries (inside a group, class, \\Q..\\E, repetition, after a backslash) with well-formed entries before / between / after: every entry is judged alone by regexp.Compile, an unreadable one must make the load fail; patterns drawn from the regexp syntax at large: [flag][anchor] 1-4 fragments [anchor] over literals in both cases, \\d \\D \\s \\S \\w \\W \\b \\B \\A \\z, POSIX and Unicode classes, (?i) (?s) (?U) and scoped flags, alternations, named groups, \\Q..\\E, hex escapes}; domain oracle = Go regexp on the entry as written over host spellings in written / upper / lower / swapped / title case, embedded and unrelated names: matching hosts refused by ParseOrResolveBlocklisted with no DNS question, hosts matching in neither case reading not refused by the domain policy; plus 0-4 registrations ingested before housekeeping. Loaded through ParseConfig from a temp file, brought up as main.go does. Non-trivial = differs from the shipped file in >= 1 key; distinct by (configuration, registrations)")
 	defer rec.Flush()
 	rec.Require("accepted", "rejected:parse", "live-cache:none", "live-cache:live-only", "live-cache:nonlive-only", "live-cache:both", "live-cache:bounded",
 		"enforced-blocklist-probe", "enforced-allowlist-probe", "enforced-phantom-probe", "enforced-phantom-ingest-probe:detector", "enforced-domain-probe", "enforced-domain-probe:mixed-case-host", "domain-nonmatching-probe", "registry-non-empty",
-		"ingest-buffer:zero-capacity", "ingest-buffer:positive-capacity")
+		"ingest-buffer:zero-capacity", "ingest-buffer:positive-capacity",
+		// entries and addresses in the other notation of the same range / address
+		"enforced-blocklist-probe:v4-entry-in-v6-notation", "enforced-allowlist-probe:v4-entry-in-v6-notation", "enforced-phantom-probe:v4-entry-in-v6-notation",
+		"enforced-blocklist-probe:v4-address-in-v6-notation", "enforced-allowlist-probe:v4-address-in-v6-notation", "enforced-phantom-probe:v4-address-in-v6-notation",
+		// lists in which an unreadable entry would be cured by reading the list as one text
+		"unreadable-domain-entry-completed-by-later-entry:missing-paren", "unreadable-domain-entry-completed-by-later-entry:missing-bracket",
+		"unreadable-domain-entry-completed-by-later-entry:trailing-backslash", "two-unreadable-domain-entries-forming-one-pattern")
 	x := c19NewCtx(t)
 	if p := vh.ReplayFile(); p != "" {
 		var c c19ConfigCase
